@@ -93,6 +93,16 @@ def gen_requests(rng, n, threads=False):
     while len(reqs) < n:
         cls = rng.choice(["plain", "plain", "plain", "scaled", "scaled", "solid", "rot", "fill", "blt", "wideop"])
         seed = rng.randrange(1, 2 ** 31)
+        if threads and rng.random() < 0.10:
+            # trapezoid / triangle calls and region algebra on thread-private objects
+            if rng.random() < 0.6:
+                tk = rng.choice([0, 1, 2])
+                f = [tk, F["a8"] if tk == 0 else F[rng.choice(["a8r8g8b8", "r5g6b5", "x8r8g8b8"])], rng.randint(4, 30),
+                     rng.randint(2, 8), seed]
+                reqs.append("T %d %s" % (len(f), " ".join(map(str, f))))
+            else:
+                reqs.append("X 2 %d %d" % (seed, rng.randint(2, 12)))
+            continue
         if threads and rng.random() < 0.12:
             # very wide general-path composites: the scanline scratch no longer fits the stack buffer
             # (2048 pixels narrow, 512 float) and is allocated per call
